@@ -41,7 +41,7 @@ type Case struct {
 	Msgs   []Msg `json:"msgs"`
 }
 
-var kinds = []string{"vote", "vote", "vote", "proposal", "proposal", "part", "part", "newroundstep", "syncstep", "commitstep", "commitstep", "proposalpol", "hasvote", "maj23", "votesetbits", "raw", "nilfields", "repeat", "repeat", "conflictmaj", "conflictmaj"}
+var kinds = []string{"vote", "vote", "vote", "proposal", "proposal", "part", "part", "newroundstep", "syncstep", "commitstep", "commitstep", "proposalpol", "hasvote", "maj23", "votesetbits", "raw", "nilfields", "repeat", "repeat", "conflictmaj", "conflictmaj", "lateproposal"}
 
 func genCase(t *rapid.T) Case {
 	c := Case{N: rapid.IntRange(1, 7).Draw(t, "n"), Warm: rapid.IntRange(0, 90).Draw(t, "warm")}
@@ -437,6 +437,28 @@ func runCase(c Case, x *h.Ctx) {
 			break
 		}
 		var b built
+		if m.Kind == "lateproposal" {
+			// scripted attack shape (sim.LateProposal): a Byzantine proposer lets the victim reach the
+			// commit step of a round without a proposal and then sends it a second proposal for that round
+			idx := 0
+			for i, n := range net.Honest() {
+				if n == v {
+					idx = i
+				}
+			}
+			var done bool
+			site, pv := guard(func() { done = d.Apply(sim.Op{K: "lateproposal", N: idx, A: m.F[0]}) })
+			if pv != nil {
+				x.Fail("consensus-goroutine-panics:"+site, "late-proposal script: the receive routine panicked: %v", pv)
+				return
+			}
+			if done {
+				x.Label("second-proposal-sent-to-node-in-commit-step")
+				delivered++
+				queued++
+			}
+			continue
+		}
 		if m.Kind == "conflictmaj" {
 			// scripted attack shape: a Byzantine validator first votes for some other id, the honest
 			// votes then form a majority for a block, the same validator now also votes for that block
